@@ -432,6 +432,9 @@ def _idle_at(f, c):
         k = fin.key(f, a[0])
         if re.search(r"(\.|->)activation$", k) and not a[1]:
             idle = True
+        nt0 = fin.null_test(f, a[0])       # `activation == 0` true, `activation != 0` false (e.g. behind a named bool)
+        if nt0 is not None and re.search(r"(\.|->)activation$", nt0[0]) and (nt0[1] == 0) == bool(a[1]):
+            idle = True
         # ~SignalActivation: `!(data->activation = next)` true, i.e. the assigned value is null
         if re.search(r"->activation = ", k) and not a[1] and f.nodes[f.strip(a[0])]["k"] == "BinaryOperator":
             idle = True
